@@ -27,6 +27,8 @@ struct ArenaInfo {
 static ArenaInfo g_ar[8];
 static std::atomic<int> g_workers_in_body{0}; static std::atomic<int> g_limit{0}; static std::atomic<int> g_worker_peak{0};
 static std::atomic<int> g_enq_outstanding{0}; static std::atomic<int> g_enq_ever{0};
+// execute() into an arena whose slots are all taken by other external threads is delegated: the library enqueues it internally, which is 'enqueued work' for the mandatory worker
+static std::atomic<bool> g_deleg_possible{false};
 
 struct Obs : tbb::task_scheduler_observer {
     int id; std::atomic<long> entries{0}, exits{0};
@@ -56,7 +58,7 @@ static void body(int k, unsigned spin) {
         if (!tl_external) {
             int w = ++g_workers_in_body; int wp = g_worker_peak.load(); while (w > wp && !g_worker_peak.compare_exchange_weak(wp, w)) {}
             int L = g_limit.load();
-            if (L > 0) { int allowed = L - 1; if (allowed == 0 && g_enq_ever.load() > 0) allowed = 1;   /* the mandatory worker stays until its arena runs out of work */ if (w > allowed) viol(6); }
+            if (L > 0) { int allowed = L - 1; if (allowed == 0 && (g_enq_ever.load() > 0 || g_deleg_possible.load())) allowed = 1;   /* the mandatory worker stays until its arena runs out of work */ if (w > allowed) viol(6); }
         }
     }
     volatile unsigned x = 0; for (unsigned i = 0; i < spin; ++i) x += i;
@@ -122,6 +124,7 @@ int main(int argc, char** argv) {
             g_ar[k].a->initialize();
             obs.push_back(new Obs(*g_ar[k].a, k));
         }
+        g_deleg_possible = false; for (int k = 0; k < K; ++k) if (g_ar[k].maxc < T) g_deleg_possible = true;
         wd.arm(&o);
         {
             std::unique_ptr<tbb::global_control> gc;
